@@ -12,6 +12,7 @@ LEVEL_TEXT = ("Lean theorems: the Go codon translation over the regenerated tabl
               "correspondence of the container operations with the property's predicates evaluated on the implementation's rows.")
 LEVEL_NOTE = 'Trusted: Lean kernel; tools/extract transcription of const.go; correspondence harness; NCBI tables 1,2,5 transcribed in Spec/Genetic.lean; model validated on generated cases only.'
 TECHNIQUE = 'Lean 4 proof (decide +kernel over regenerated tables, induction) + differential correspondence'
+NEEDS_BINARY = True
 LEAN_MODULES = ["Gv.Props.C05"]
 REQUIRED_THEOREMS = ["Gv.Props.C05." + n for n in [
     "geneticCode_dispatch", "translateCodon_eq_spec", "translate_length", "translate_error_iff",
@@ -39,7 +40,7 @@ SYMS = NT + NT.lower() + "-" + "?*.Xx"
 assert len(SYMS) == 38
 
 
-def gen(rng, tier):
+def _gen_core(rng, tier):
     # exhaustive codons (both tiers: cheap)
     codons = [a + b + c for a in SYMS for b in SYMS for c in SYMS]
     rng.shuffle(codons)
@@ -220,8 +221,23 @@ def shrink(c):
 
 
 def matches(c):
+    if c.op.startswith("det"):
+        return (c.impl or "").startswith("same")
     if c.op == "byref" and c.model == "err":
         return (c.impl or "").startswith("err")      # errors are raised before the alignment is touched
     if c.op == "altranslate" and c.model == "err":
         return (c.impl or "").startswith("err")      # what an operation that failed leaves behind is not judged
     return c.model == c.impl
+
+
+# ---- command-line glue: a multi-alignment Phylip input must be treated as its alignments one by one (`detmulti`) ----
+MULTI_CMDS = [['translate'], ['translate', '--phase', '1'], ['translate', '--genetic-code', 'mitov'], ['translate', '--ref-seq', 'ref']]
+
+
+def gen(rng, tier):
+    from driver import multigen
+    for c in _gen_core(rng, tier):
+        yield c
+    for _ in range(2 if tier == "quick" else 20):
+        for argv in MULTI_CMDS:
+            yield multigen.multi_case(multigen.alignments(rng), argv, "cli-multi-" + "-".join(argv[:2]))
